@@ -30,6 +30,9 @@ CLAIMED.update({
  "C11": C("property-based testing: generated graphs with negative costs incl. a dense-negative-DAG class; oracle = exact i64 fixpoint Bellman-Ford from every source",
           "bellman_ford, spfa, floyd_warshall, floyd_warshall_path and find_negative_cycle: verdicts, distances, sentinel values, predecessor trees / prev matrices and returned cycles compared with the exact oracle on 10 encodings and 5 cost types.",
           "the fixpoint relaxation in harness/src/agraph.rs", "DESIGN.md section 5, C11"),
+ "C12": C("property-based testing: generated weighted multigraphs; oracle = structural forest predicate + naive Prim optimum cross-checked by exhaustive subset enumeration",
+          "min_spanning_tree element streams (and the graph built from them) and min_spanning_tree_prim on 10 encodings, i32 and exact f64 weights: node order, edge membership, acyclicity, |V|-c edges and minimum total weight.",
+          "the naive Prim / subset enumeration in props/c12.rs", "DESIGN.md section 5, C12"),
 })
 PLANNED = {}
 
